@@ -577,6 +577,10 @@ type GhostDecl struct {
 	Pkg  string
 	Keys []QVar
 	Ret  string
+	// History: declared with "history name(...) T": a ghost that records an event of the current call (set only by an
+	// assumed clause of the contract that performs the event); calls WITHOUT a contract are assumed not to perform the
+	// event, so they leave it unchanged
+	History bool
 }
 
 type Lemma struct {
@@ -906,7 +910,7 @@ func ParseContractText(pkg, file, text string) (*ContractFile, error) {
 				sf.Ret = tail
 			}
 			cf.Specs = append(cf.Specs, sf)
-		case "ghost":
+		case "ghost", "history":
 			// ghost name(k T, ...) T
 			i := strings.Index(rest, "(")
 			j := strings.Index(rest, ")")
@@ -917,7 +921,7 @@ func ParseContractText(pkg, file, text string) (*ContractFile, error) {
 			if err != nil {
 				return nil, fmt.Errorf("%s:%d: %v", file, ln, err)
 			}
-			cf.Ghosts = append(cf.Ghosts, &GhostDecl{Name: strings.TrimSpace(rest[:i]), Pkg: pkg, Keys: vars, Ret: strings.TrimSpace(rest[j+1:])})
+			cf.Ghosts = append(cf.Ghosts, &GhostDecl{Name: strings.TrimSpace(rest[:i]), Pkg: pkg, Keys: vars, Ret: strings.TrimSpace(rest[j+1:]), History: kw == "history"})
 		case "axiom":
 			c, err := parseClause(rest, file, ln)
 			if err != nil {
